@@ -574,6 +574,18 @@ class World(object):
         func = op[0]
         ev['op'] = getattr(func, '__name__', str(func)).lstrip('_')
         ev['in_tx'] = bool(op[2])
+        # which row the operation is about (read from the closure the engine registered; best effort)
+        try:
+            if ev['op'] == 'start_task' and func.__defaults__:
+                ev['args'] = {'task_ex_id': func.__defaults__[0].task_ex.id, 'first_run': bool(func.__defaults__[1])}
+            elif ev['op'] == 'schedule_if_needed' and op[1]:
+                ev['args'] = {'task_ex_id': op[1][0]}
+            elif ev['op'] == 'run_action':
+                cells = dict(zip(func.__code__.co_freevars, [c.cell_contents for c in (func.__closure__ or ())]))
+                if cells.get('action_ex_id'):
+                    ev['args'] = {'action_ex_id': cells['action_ex_id']}
+        except Exception:
+            pass
         old = self.auth_context.ctx() if self.auth_context.has_ctx() else None
         self.auth_context.set_ctx(b.auth_ctx)
         try:
